@@ -91,7 +91,7 @@ pub fn note_in_term(name: &str, text: &str, graph: Option<&Graph>, options: &Mar
         Err(e) => (None, Err(panic_msg(e))),
     };
     let tables = match graph {
-        Some(g) => tables_of(g, &Key::from_file_name(name), options),
+        Some(g) => tables_of(g, &Key::name(name), options),
         None => vec![],
     };
     gapp(
@@ -172,7 +172,7 @@ pub fn execute(v: &Value) -> String {
             let mut titles = vec![];
             let mut obs = vec![];
             for (name, text) in &sorted {
-                let key = Key::from_file_name(name);
+                let key = Key::name(name);
                 titles.push(gpair(&gstr(&key.to_string()), &gopt(graph.get_key_title(&key).map(|t| gstr(&t)))));
                 obs.push(note_obs_term(graph, &key, text, &options));
             }
